@@ -242,3 +242,195 @@ Proof.
         destruct IH as (H1 & H2 & H3 & H4). repeat split; auto.
         etransitivity; [exact H4|]. rewrite map_map. reflexivity.
 Qed.
+
+(** what the layers do to one message: identity, content, context are untouched; the trail grows
+    by the stack's transform tags in order; the delay metadata is [stack_stamp] *)
+Lemma layer_final_untouched d m :
+  pm_id (layer_final d m) = pm_id m /\ pm_rest (layer_final d m) = pm_rest m
+  /\ pm_ctx (layer_final d m) = pm_ctx m /\ pm_gen (layer_final d m) = pm_gen m
+  /\ pm_hname (layer_final d m) = pm_hname m /\ pm_pname (layer_final d m) = pm_pname m.
+Proof. destruct d as [t|g a|n]; simpl; auto 10. destruct (decide g a m); simpl; auto 10. Qed.
+
+Lemma stack_final_untouched st : forall m,
+  pm_id (stack_final st m) = pm_id m /\ pm_rest (stack_final st m) = pm_rest m
+  /\ pm_ctx (stack_final st m) = pm_ctx m /\ pm_gen (stack_final st m) = pm_gen m
+  /\ pm_hname (stack_final st m) = pm_hname m /\ pm_pname (stack_final st m) = pm_pname m.
+Proof.
+  induction st as [|d st IH]; intros m; [simpl; auto 10|].
+  rewrite stack_final_cons.
+  destruct (IH (layer_final d m)) as (A1 & A2 & A3 & A4 & A5 & A6).
+  destruct (layer_final_untouched d m) as (B1 & B2 & B3 & B4 & B5 & B6).
+  repeat split; congruence.
+Qed.
+
+Lemma stack_final_trail st : forall m, pm_trail (stack_final st m) = pm_trail m ++ transform_tags st.
+Proof.
+  induction st as [|d st IH]; intros m; [simpl; symmetry; apply app_nil_r|].
+  rewrite stack_final_cons, IH. destruct d as [t|g a|n]; simpl.
+  - rewrite <- app_assoc. reflexivity.
+  - destruct (decide g a m); reflexivity.
+  - reflexivity.
+Qed.
+
+Definition deq (a b : pmsg) : Prop :=
+  pm_for a = pm_for b /\ pm_until a = pm_until b /\ pm_ctx a = pm_ctx b /\ pm_gen a = pm_gen b.
+
+Lemma decide_deq g a m1 m2 : deq m1 m2 -> decide g a m1 = decide g a m2.
+Proof. intros (H1 & H2 & H3 & H4). unfold decide. rewrite H1, H3, H4. reflexivity. Qed.
+
+Lemma stack_final_stamp st : forall m1 m2, deq m1 m2 -> deq (stack_final st m1) (stack_stamp st m2).
+Proof.
+  induction st as [|d st IH]; intros m1 m2 H; [exact H|].
+  rewrite stack_final_cons. unfold stack_stamp. simpl. apply IH.
+  destruct d as [t|g a|n]; simpl.
+  - exact H.
+  - rewrite (decide_deq g a m1 m2 H).
+    destruct H as (H1 & H2 & H3 & H4).
+    destruct (decide g a m2); simpl; repeat split; auto.
+  - exact H.
+Qed.
+
+Lemma stack_final_delay st m :
+  pm_for (stack_final st m) = pm_for (stack_stamp st m)
+  /\ pm_until (stack_final st m) = pm_until (stack_stamp st m).
+Proof.
+  destruct (stack_final_stamp st m m) as (H1 & H2 & _); [repeat split|]. auto.
+Qed.
+
+(** the objects of the batch stay the same objects with the same content, whatever happens *)
+Lemma publish_ids st : forall script topic msgs,
+  map pm_id (po_msgs (publish st script topic msgs)) = map pm_id msgs
+  /\ map pm_rest (po_msgs (publish st script topic msgs)) = map pm_rest msgs.
+Proof.
+  induction st as [|d st IH]; intros script topic msgs; [simpl; auto|].
+  destruct d as [tag|g a|name].
+  - simpl. destruct (IH script topic (map (add_trail tag) msgs)) as [H1 H2].
+    rewrite H1, H2, !map_map. auto.
+  - simpl. pose proof (delay_batch_ids g a topic msgs) as [D1 D2].
+    destruct (delay_batch g a topic msgs) as [[ev msgs'] r]. unfold db_msgs in *. simpl in *.
+    destruct r; simpl; [auto|].
+    destruct (IH script topic msgs') as [H1 H2]. rewrite H1, H2. auto.
+  - destruct msgs as [|m0 r]; [apply (IH script topic [])|].
+    cbn [publish].
+    destruct (IH script topic (map set_mark (m0 :: r))) as [H1 H2].
+    rewrite !map_map in H1, H2.
+    destruct (pm_mark m0); simpl po_msgs; auto.
+Qed.
+
+(** ** the publish metric of one call *)
+Lemma first_metrics_name_skip d st :
+  (forall n, d <> PMetrics n) -> first_metrics_name (d :: st) = first_metrics_name st.
+Proof. intros H. destruct d; try reflexivity. exfalso. eapply H. reflexivity. Qed.
+
+Lemma publish_obs st : forall script topic msgs,
+  po_obs (publish st script topic msgs) =
+  match msgs with
+  | [] => []
+  | m0 :: _ => if reaches_metrics st msgs && negb (pm_mark m0)
+               then [pub_label (first_metrics_name st) m0 (po_res (publish st script topic msgs))]
+               else []
+  end.
+Proof.
+  induction st as [|d st IH]; intros script topic msgs.
+  - simpl. destruct msgs; reflexivity.
+  - destruct d as [tag|g a|name].
+    + simpl. rewrite IH. destruct msgs as [|m0 r]; [reflexivity|]. simpl.
+      rewrite first_metrics_name_skip by discriminate. reflexivity.
+    + simpl.
+      destruct (delay_batch_notopic g a topic 0%N msgs) as [Hm Hr].
+      pose proof (delay_batch_spec g a topic msgs) as [Hs1 Hs2].
+      destruct (delay_batch g a topic msgs) as [[ev msgs'] r].
+      destruct (delay_batch g a 0%N msgs) as [[ev0 msgs0] r0].
+      unfold db_msgs, db_res in *. simpl in *. subst msgs0 r0.
+      destruct r as [e|]; simpl.
+      * destruct msgs; reflexivity.
+      * rewrite IH. rewrite Hs2 by (symmetry; exact Hs1).
+        destruct msgs as [|m0 rest]; [reflexivity|]. simpl.
+        rewrite first_metrics_name_skip by discriminate.
+        assert (E : pm_mark (apply_decision (decide g a m0) m0) = pm_mark m0
+                    /\ forall n x, pub_label n (apply_decision (decide g a m0) m0) x = pub_label n m0 x)
+          by (destruct (decide g a m0); simpl; auto).
+        destruct E as [E1 E2]. rewrite E1, E2. reflexivity.
+    + destruct msgs as [|m0 r].
+      * simpl. rewrite IH. reflexivity.
+      * cbn [publish]. pose proof (IH script topic (map set_mark (m0 :: r))) as H.
+        simpl map in H. cbn [pm_mark set_mark negb] in H. rewrite andb_false_r in H.
+        simpl map. cbn [reaches_metrics]. simpl andb.
+        destruct (pm_mark m0); simpl.
+        -- exact H.
+        -- rewrite H. reflexivity.
+Qed.
+
+(** ** reflexivity of the comparison functions *)
+Lemma list_eqb_refl {A} (eqb : A -> A -> bool) : (forall x, eqb x x = true) -> forall l, list_eqb eqb l l = true.
+Proof. intros H l. induction l; simpl; [reflexivity|]. rewrite H, IHl. reflexivity. Qed.
+Lemma delay_eqb_refl d : delay_eqb d d = true.
+Proof. unfold delay_eqb. rewrite !Z.eqb_refl. reflexivity. Qed.
+Lemma mval_eqb_refl v : mval_eqb v v = true.
+Proof. destruct v; simpl; auto using N.eqb_refl, Z.eqb_refl. Qed.
+Lemma genres_eqb_refl v : genres_eqb v v = true.
+Proof. destruct v; simpl; auto using N.eqb_refl, delay_eqb_refl. Qed.
+Lemma optN_eqb_refl v : optN_eqb v v = true.
+Proof. destruct v; simpl; auto using N.eqb_refl. Qed.
+Lemma pmsg_eqb_refl m : pmsg_eqb m m = true.
+Proof.
+  unfold pmsg_eqb. rewrite !N.eqb_refl, (list_eqb_refl N.eqb N.eqb_refl), !mval_eqb_refl, genres_eqb_refl, Bool.eqb_reflx.
+  destruct (pm_ctx m); simpl; [rewrite delay_eqb_refl|]; reflexivity.
+Qed.
+
+Lemma same_objects_of a b : map pm_id a = map pm_id b -> map pm_rest a = map pm_rest b -> same_objects a b = true.
+Proof. intros H1 H2. unfold same_objects. rewrite H1, H2, !(list_eqb_refl N.eqb N.eqb_refl). reflexivity. Qed.
+
+(** every Publish call of the model is accepted by the acceptor the check runs on the
+    implementation's calls *)
+Lemma publish_call_ok st script topic msgs :
+  call_ok st (PObs topic msgs (po_ev (publish st script topic msgs)) (hd None script)
+                   (po_res (publish st script topic msgs)) (po_msgs (publish st script topic msgs))) = true.
+Proof.
+  unfold call_ok. simpl.
+  destruct (publish_ids st script topic msgs) as [I1 I2].
+  rewrite (same_objects_of msgs _ (eq_sym I1) (eq_sym I2)). simpl.
+  pose proof (publish_spec st script topic msgs) as H.
+  destruct (stack_reject st msgs) as [e|].
+  - destruct H as (H1 & H2 & H3). rewrite H1, H2. simpl. apply N.eqb_refl.
+  - destruct H as (H1 & H2 & H3 & H4). rewrite H1, H2.
+    rewrite N.eqb_refl, (same_objects_of msgs _ (eq_sym I1) (eq_sym I2)), optN_eqb_refl,
+      (list_eqb_refl pmsg_eqb pmsg_eqb_refl). simpl.
+    rewrite H4, !map_map.
+    rewrite (map_ext (fun x => pm_trail (stack_final st x)) (fun m => pm_trail m ++ transform_tags st))
+      by (intros; apply stack_final_trail).
+    rewrite (map_ext (fun x => pm_for (stack_final st x)) (fun m => pm_for (stack_stamp st m)))
+      by (intros; apply stack_final_delay).
+    rewrite (map_ext (fun x => pm_until (stack_final st x)) (fun m => pm_until (stack_stamp st m)))
+      by (intros; apply stack_final_delay).
+    rewrite (list_eqb_refl (list_eqb N.eqb) (list_eqb_refl N.eqb N.eqb_refl)),
+      !(list_eqb_refl mval_eqb mval_eqb_refl). reflexivity.
+Qed.
+
+(** ** sequences of calls *)
+Lemma spec_pub_obs_cons st c cs : spec_pub_obs st (c :: cs) = spec_pub_obs st [c] ++ spec_pub_obs st cs.
+Proof. unfold spec_pub_obs. simpl. rewrite app_nil_r. reflexivity. Qed.
+
+Lemma prun_obs st calls : forall s,
+  ps_obs (fold_left (pstep st) calls s) = ps_obs s ++ spec_pub_obs st (pobs_run st s calls).
+Proof.
+  induction calls as [|c cs IH]; intros s; [simpl; symmetry; apply app_nil_r|].
+  cbn [fold_left pobs_run]. rewrite IH, spec_pub_obs_cons.
+  unfold pstep at 1. cbn [ps_obs]. rewrite <- app_assoc. f_equal. f_equal.
+  unfold spec_pub_obs. cbn [flat_map c_before c_res]. rewrite app_nil_r. apply publish_obs.
+Qed.
+
+Lemma prun_calls_ok st calls : forall s, forallb (call_ok st) (pobs_run st s calls) = true.
+Proof.
+  induction calls as [|c cs IH]; intros s; simpl; [reflexivity|].
+  rewrite IH, andb_true_r. apply publish_call_ok.
+Qed.
+
+(** counts only depend on the log *)
+Lemma pub_monitor_model st heap script calls tab :
+  counts_agree plabel_eqb tab (ps_obs (prun st heap script calls)) = true ->
+  pub_monitor st (pobs_run st (PS heap script [] [] []) calls) tab = true.
+Proof.
+  intros H. unfold pub_monitor. rewrite prun_calls_ok. simpl.
+  unfold prun in H. rewrite prun_obs in H. exact H.
+Qed.
